@@ -4,9 +4,9 @@ seeded/<prop>-<k>/{meta.json,checks.txt,confirm.txt}."""
 import json, os, re, glob
 HERE = os.path.dirname(os.path.dirname(os.path.abspath(__file__)))
 rows = []
-for d in sorted(glob.glob(os.path.join(HERE, "seeded", "C*-*"))):
+for d in sorted(glob.glob(os.path.join(HERE, "seeded", "*C*-*"))):
     name = os.path.basename(d)
-    prop = name.split("-")[0]
+    prop = re.search(r"C\d\d", name).group(0)
     try:
         meta = json.load(open(os.path.join(d, "meta.json")))
     except Exception as e:
